@@ -36,7 +36,7 @@ ASSUMPTIONS = [
     'the model has been solved at least once (an unsolved precipitation model holds eqAspectRatio = None and cannot be loaded back)',
     'phase names of one model are distinct',
     'finite array contents; array dtype (finalTime may be saved as int64) is not modelled, values are compared as doubles',
-    'the untrained getter must return the very object the thermodynamics call of the same name returned (checked by identity); an independent second thermodynamics call (removeCache=True) is compared with rtol 1e-9 only, pycalphad evaluations being reproducible to about 1e-12',
+    'the untrained getter must return the very object the thermodynamics call of the same name returned (checked by identity); an independent second thermodynamics call (removeCache=True) is compared with rtol 1e-6 only: two pycalphad evaluations of the same point agree to the minimiser tolerance (1e-12 typical, 6e-10 seen in a precipitate composition)',
 ]
 TRUSTED = ['np.savez_compressed / np.load / dict(NpzFile) semantics as modelled in KawinV.SaveLoad (compared on every run)',
            'json.dump / json.load number printing and parsing', 'SciPy RBFInterpolator']
@@ -991,8 +991,8 @@ def check_untrained(res, kind, cls, th, rng):
             continue
         if not (out is spy.calls[0][1]):
             res.violate('untrained-%s.%s-does-not-return-the-thermodynamics-result' % (cname, g), 'result is not the object the thermodynamics call returned', desc)
-        res.count('untrained-vs-direct-call:' + ('bit-identical' if deep_same(out, ref) else 'within-1e-9'))
-        if not deep_close(out, ref, 1e-9):      # a second pycalphad evaluation is only reproducible to ~1e-12
+        res.count('untrained-vs-direct-call:' + ('bit-identical' if deep_same(out, ref) else 'within-1e-6'))
+        if not deep_close(out, ref, 1e-6):      # a second pycalphad evaluation is reproducible only to the minimiser tolerance (seen: 6e-10 in xP)
             res.violate('untrained-%s.%s-differs-from-thermodynamics' % (cname, g), 'untrained getter and thermodynamics.%s give different values' % g, desc,
                         observed=brief(out) if not isinstance(out, tuple) else [brief(o) for o in out],
                         required=brief(ref) if not isinstance(ref, tuple) else [brief(o) for o in ref])
@@ -1014,7 +1014,7 @@ def stored_is_thermo(res, cname, what, desc, stored, fn):
     """the training data a surrogate keeps (and writes to its file) are the values the thermodynamics gives at the training points"""
     ok, ref = _guard(res, 'thermodynamics-%s' % what, 'thermodynamics call at the training points', desc, fn)
     res.count('stored-training-data-vs-thermodynamics')
-    if ok and not deep_close(stored, ref, 1e-9):
+    if ok and not deep_close(stored, ref, 1e-6):
         res.violate('stored-training-data-%s.%s-not-the-thermodynamics-values' % (cname, what),
                     'the training data kept by the surrogate for %s are not what the thermodynamics returns at the training points' % what, desc,
                     observed=[brief(o) for o in stored] if isinstance(stored, tuple) else brief(stored),
